@@ -1273,7 +1273,12 @@ def run(ctx: Ctx) -> None:
             cut = rng.randrange(len(texts[j]) + 1)
             texts[j] = texts[j][:cut] + ph + texts[j][cut:]
         texts = [t.replace(OPEN_TAG, "<script>") for t in texts]
-        extra = [rand_dep(rng, renderable=True, name=f"extra{rng.randrange(3)}")] if rng.random() < 0.2 else []
+        # dependencies handed to the constructor: own names, or (half of them) the NAME of a dependency that the text
+        # also embeds, with other content / version: both are kept, supplied ones first
+        extra = []
+        if rng.random() < 0.3:
+            nm = pool[0].get("name") if pool and rng.random() < 0.5 else None
+            extra = [rand_dep(rng, renderable=True, name=nm or f"extra{rng.randrange(3)}")]
         case = {"kind": "render", "ph": ph, "pool": pool, "items": items, "texts": texts, "extra": extra,
                 "lib_prefix": rng.choice(LIB_PREFIXES), "include_version": rng.random() < 0.7}
         if len(ren_cases) > 60:
